@@ -34,6 +34,9 @@ def corpus_repeated(ctx, reps):
 
 
 def check(ctx):
+    # the lock sites of /repo's current source: every site of a non-leaf lock must be visible
+    # to the lock-order recorder (theorem source_lock_sites_annotated over the regenerated table)
+    vlib.translate(ctx, [("lock_sites", "LockSites.lean")])
     vlib.prove(ctx, ["KrillModel.Props.C18", "KrillModel.Props.C07"])
     found = False
     if vlib.build_harness(ctx, ["conc"]):
@@ -52,7 +55,10 @@ def check(ctx):
         "for any number of threads and programs, what is checked dynamically is that the code's lock nesting follows the ranking",
         "blocked-on-l implies some other unfinished thread holds l (mutexes, reader/writer locks incl. writer preference); "
         "fd-lock / OS file-lock behaviour is trusted",
-        "in-memory caches' RwLocks (aggregate cache, status cache, WAL cache) are leaf locks: held only for a map operation",
+        "leaf locks (no site keeps the guard over later statements: aggregate cache, WAL cache, session cache, active signers) "
+        "are not instrumented; which locks are leaf is recomputed from the source on every run (translator lock_sites), and "
+        "every site of every other lock must carry a lockdep annotation; the memory back-end's own data mutexes and the HSM "
+        "signer back-ends are outside the table (translate/src/lock_sites.rs EXEMPT / out_of_scope)",
         "per-entity serialisability is C07's theorem (entity scope lock brackets each command)",
     ]
     return vlib.finish(ctx, "proof", RULE)
@@ -79,9 +85,13 @@ MANIFEST = {
             "published-object store < task queue < signer stores; repository update lock < rsync lock). Tied to the code by a "
             "lockdep-style recorder hooked into every key-value scope lock (both back-ends), the repository update lock and the "
             "rsync lock: every (held, wanted) pair observed in concurrent runs with the real scheduler thread must respect the "
-            "ranking; completion (watchdog), replies and final state are compared with a one-at-a-time twin and the RP walk",
+            "ranking; completion (watchdog), replies and final state are compared with a one-at-a-time twin and the RP walk. "
+            "The history-cache mutex, the status cache, the signer router's pending set and the soft signer handle (in-process "
+            "locks held across store calls) are ranked and recorded too, and a translator lists every lock site of the source: "
+            "theorem source_lock_sites_annotated fails if a site of a non-leaf lock is invisible to the recorder",
     "note": "Partial by nature: schedules are sampled. Proof covers the discipline => no deadlock for all thread counts/programs; "
             "the dynamic check shows the code follows the discipline on the exercised paths (a potential inversion is reported "
-            "without the fatal interleaving occurring). Leaf RwLocks of in-memory caches are not instrumented.",
+            "without the fatal interleaving occurring). Leaf locks (guard never kept over a following statement, recomputed from "
+            "the source each run) are not instrumented; runs use the daemon's default use_history_cache=true.",
     "technique": "Lean 4 proof (lock-ranking discipline, unbounded threads) + lockdep correspondence on concurrent runs",
 }
